@@ -20,6 +20,7 @@ import (
 	"io"
 	"log"
 	"os"
+	"regexp"
 	"runtime/debug"
 	"sort"
 	"strconv"
@@ -282,14 +283,14 @@ func (e *evidence) flush() {
 		}
 	}
 	out := map[string]any{
-		"evaluations": e.evals,
-		"labels":      e.labels,
-		"excluded":    e.excluded,
-		"samples":     ss,
-		"notes":       e.notes,
-		"requested":   e.requested,
-		"executed":    e.done,
-		"known":       e.known,
+		"evaluations":   e.evals,
+		"labels":        e.labels,
+		"excluded":      e.excluded,
+		"samples":       ss,
+		"notes":         e.notes,
+		"requested":     e.requested,
+		"executed":      e.done,
+		"known":         e.known,
 		"hashes_capped": len(e.hashes) >= maxHashes,
 	}
 	b, err := json.MarshalIndent(out, "", " ")
@@ -335,7 +336,7 @@ func register[C any](kind string, check func(C) string) {
 func guarded(f func() string) (msg string) {
 	defer func() {
 		if r := recover(); r != nil {
-			msg = fmt.Sprintf("PANIC: %v\n%s", r, trimStack(debug.Stack()))
+			msg = hexRe.ReplaceAllString(fmt.Sprintf("PANIC: %v\n%s", r, trimStack(debug.Stack())), "")
 		}
 	}()
 	return f()
@@ -352,8 +353,11 @@ func trimStack(b []byte) string {
 			break
 		}
 	}
-	return strings.Join(keep, "\n")
+	// no addresses: rapid requires the failure message to be identical when a case is re-run
+	return hexRe.ReplaceAllString(strings.Join(keep, "\n"), "")
 }
+
+var hexRe = regexp.MustCompile(`\(?\+?0x[0-9a-f]+[^)\n]*\)?`)
 
 type fataler interface {
 	Fatalf(format string, args ...any)
